@@ -32,7 +32,7 @@ var wfDomain = gen.Domain{UTF8: true, WellFormed: true}
 
 func c02Corpus(env run.Env) corpus {
 	if env.Thorough {
-		return newCorpus("C02", wfDomain, 60, 400000)
+		return newCorpus("C02", wfDomain, 240, 12000000)
 	}
 	return newCorpus("C02", wfDomain, 6, 20000)
 }
